@@ -270,6 +270,12 @@ def impl_lazy(case):
             if case["kind"] == "c":
                 imp = ref.save_impacts()
                 from inference.preocf import RandomMinCRepPreOCF
+                if case.get("perturb"):
+                    # an impact vector that need not solve the base (the ranking is then not a model of its own base): the laws of
+                    # formula rank / acceptance hold for it all the same; the reference is a second, fully computed object
+                    imp = [max(0, int(x) - 1) if i % 2 == 0 else 0 for i, x in enumerate(imp)]
+                    ref = RandomMinCRepPreOCF.init_with_impacts_list(core.make_bb(names, answers.keyed(case["base"])), list(imp))
+                    full = dict(ref.compute_all_ranks())
                 o = RandomMinCRepPreOCF.init_with_impacts_list(core.make_bb(names, answers.keyed(case["base"])), list(imp))
             else:
                 o = mk()
@@ -345,7 +351,14 @@ def gen_lazy_cases(ctx, count):
                 ops.append(["accept", [b, a]])
             else:
                 ops.append(["rank", rng.choice(worlds)])
-        out.append({"n": n, "kind": "z" if rng.random() < 0.6 else "c", "base": c["base"], "ops": ops})
+        kind = "z" if rng.random() < 0.6 else "c"
+        case = {"n": n, "kind": kind, "base": c["base"], "ops": ops}
+        if kind == "c" and rng.random() < 0.4:
+            case["perturb"] = True
+            # the base's own conditionals are asked too
+            for _, b, a in c["base"][:3]:
+                ops.append(["accept", [b, a]])
+        out.append(case)
     return out
 
 
